@@ -12,8 +12,10 @@
 #define WUFFS_CONFIG__MODULE__ADLER32
 #define WUFFS_CONFIG__MODULE__CRC32
 #define WUFFS_CONFIG__MODULE__DEMO
+#define WUFFS_CONFIG__MODULE__LZW
 #include "wuffs-std-adler32.c"
 #include "wuffs-std-crc32.c"
+#include "wuffs-std-lzw.c"
 #include "wuffs-corpus-demo.c"
 #include "verif.h"
 
@@ -202,5 +204,38 @@ void harness_any_crc32(void) {
   uint32_t a = wuffs_crc32__ieee_hasher__update_u32(&h, wuffs_base__make_slice_u8(mem + off, n));
   uint32_t b = wuffs_crc32__ieee_hasher__checksum_u32(&h);
   verif_check(a == b, "any/crc32-checksum-getter");
+  verif_reach("any/done");
+}
+
+// ---- std/lzw: arbitrary input bytes, arbitrary destination capacity ----
+
+void harness_any_lzw(void) {
+  uint8_t smem[8], dmem[8];
+  wuffs_base__io_buffer src, dst;
+  make_buf(&src, smem, verif_param("N"));
+  src.meta.ri = 0;
+  make_buf(&dst, dmem, 8);
+  dst.meta.closed = false;
+  static wuffs_lzw__decoder dec;
+  verif_check(wuffs_lzw__decoder__initialize(&dec, sizeof dec, WUFFS_VERSION, 0).repr == NULL, "any/init");
+  uint32_t lw = nondet_u8() & 7;
+  wuffs_lzw__decoder__set_quirk(&dec, WUFFS_LZW__QUIRK_LITERAL_WIDTH_PLUS_ONE, 1 + lw);
+  for (int64_t k = 0; k < verif_param("CALLS"); k++) {
+    uint64_t ri0 = src.meta.ri, wi0 = dst.meta.wi;
+    wuffs_base__status st = wuffs_lzw__decoder__transform_io(&dec, &dst, &src, wuffs_base__empty_slice_u8());
+    verif_check(src.meta.ri >= ri0 && src.meta.ri <= src.meta.wi && src.meta.wi <= src.data.len, "any/src-indexes");
+    verif_check(dst.meta.wi >= wi0 && dst.meta.ri <= dst.meta.wi && dst.meta.wi <= dst.data.len, "any/dst-indexes");
+    check_status(st, &src, &dst);
+    if (!is_suspension(st)) break;
+    if (st.repr == wuffs_base__suspension__short_write) {
+      dst.meta.ri = 0;
+      dst.meta.wi = 0;
+    } else {
+      uint64_t more = nondet_u64();
+      verif_assume(more <= src.data.len - src.meta.wi);
+      src.meta.wi += more;
+      src.meta.closed = true;
+    }
+  }
   verif_reach("any/done");
 }
